@@ -620,3 +620,70 @@ mod test {
 pub fn verif_get_booth_index(window_index: usize, window_size: usize, el: &[u8]) -> i32 {
     get_booth_index(window_index, window_size, el)
 }
+
+/// Verification hook: runs the private `batch_add` (batch-affine bucket addition of `msm_best`)
+/// on plain coordinates. `buckets[i] = None` is `BucketAffine::None`; `points` are
+/// `(base_idx, buck_idx, sign)` triples, all of which are processed (`size = points.len()`).
+/// Returns the buckets after the call. Read-only with respect to the rest of the crate.
+#[cfg(feature = "verif-hooks")]
+#[allow(clippy::type_complexity)]
+pub fn verif_batch_add<C: CurveAffine>(
+    buckets: &[Option<(C::Base, C::Base)>],
+    points: &[(usize, usize, bool)],
+    bases: &[(C::Base, C::Base)],
+) -> Vec<Option<(C::Base, C::Base)>> {
+    let mut bk: Vec<BucketAffine<C>> = buckets
+        .iter()
+        .map(|b| match b {
+            None => BucketAffine::None,
+            Some((x, y)) => BucketAffine::Point(Affine { x: *x, y: *y }),
+        })
+        .collect();
+    let pts: Vec<SchedulePoint> =
+        points.iter().map(|(b, k, s)| SchedulePoint::new(*b, *k, *s)).collect();
+    let bases: Vec<Affine<C>> = bases.iter().map(|(x, y)| Affine { x: *x, y: *y }).collect();
+    batch_add(pts.len(), &mut bk, &pts, &bases);
+    bk.iter()
+        .map(|b| match b {
+            BucketAffine::None => None,
+            BucketAffine::Point(a) => Some((a.x, a.y)),
+        })
+        .collect()
+}
+
+/// Verification hook: drives the private `Schedule` of `msm_best` (its real `contains`, `add`,
+/// `execute` and, through them, `batch_add`) over a sequence of `(base_idx, buck_idx, sign)`
+/// requests with `1 << (c - 1)` buckets. Returns, per request, `0` when the bucket was already
+/// in the pending batch (`contains`: the caller diverts the point to the Jacobian side) and
+/// otherwise `1 + ptr` with `ptr` the number of pending entries after `add` (`1` right after a
+/// flush or a direct assignment into an empty schedule), followed by the affine buckets after
+/// the final `execute`.
+#[cfg(feature = "verif-hooks")]
+#[allow(clippy::type_complexity)]
+pub fn verif_schedule_run<C: CurveAffine>(
+    c: usize,
+    bases: &[C],
+    requests: &[(usize, usize, bool)],
+) -> (Vec<usize>, Vec<Option<(C::Base, C::Base)>>) {
+    let bases_local: Vec<Affine<C>> = bases.iter().map(Affine::from).collect();
+    let mut sched = Schedule::<C>::new(c);
+    let mut trace = Vec::with_capacity(requests.len());
+    for (base_idx, buck_idx, sign) in requests.iter() {
+        if sched.contains(*buck_idx) {
+            trace.push(0);
+        } else {
+            sched.add(&bases_local, *base_idx, *buck_idx, *sign);
+            trace.push(1 + sched.ptr);
+        }
+    }
+    sched.execute(&bases_local);
+    let out = sched
+        .buckets
+        .iter()
+        .map(|b| match b {
+            BucketAffine::None => None,
+            BucketAffine::Point(a) => Some((a.x, a.y)),
+        })
+        .collect();
+    (trace, out)
+}
